@@ -492,6 +492,8 @@ type funcCtx struct {
 	// inlining of a loop-free module function that has no contract of its own
 	inlineDepth int
 	collector   *[]inlineRet
+	ownSlices   map[*ssa.Alloc]bool // local slice variables that only ever hold storage made by this call
+	ownSlicesOK bool
 }
 
 type inlineRet struct {
